@@ -134,7 +134,14 @@ fn run_hf(out: &mut Out, mut c: Case) {
 	let seen = catch_unwind(AssertUnwindSafe(|| {
 		let layer = match &c.allow {
 			None => HostFilterLayer::disable(),
-			Some(l) => match HostFilterLayer::new(l.iter().map(|s| s.as_str())) {
+			// entries that are socket addresses go through `TryFrom<SocketAddr>` every other time
+			Some(l) => match HostFilterLayer::new(l.iter().enumerate().map(|(i, s)| match s.parse::<std::net::SocketAddr>() {
+				Ok(a) if (i + s.len()) % 2 == 0 => {
+					VIA_ADDR.fetch_add(1, Ordering::SeqCst);
+					Entry::Addr(a)
+				}
+				_ => Entry::Text(s.clone()),
+			})) {
 				Ok(l) => l,
 				Err(_) => return Seen::CfgErr,
 			},
@@ -580,6 +587,23 @@ fn judge(sources: &[OParse], entries: &Option<Vec<OAuth>>, seen: Seen) -> Result
 // generators
 
 const LABELS: &[&str] = &["a", "b", "c", "x", "y", "io", "parity", "web3", "site", "example", "com", "localhost", "evil", "p-1", "0"];
+static VIA_ADDR: AtomicUsize = AtomicUsize::new(0);
+
+/// an allow-list entry as the application may give it: a string or a socket address
+enum Entry {
+	Text(String),
+	Addr(std::net::SocketAddr),
+}
+impl TryFrom<Entry> for Authority {
+	type Error = jsonrpsee_server::middleware::http::AuthorityError;
+	fn try_from(e: Entry) -> Result<Self, Self::Error> {
+		match e {
+			Entry::Text(s) => Authority::try_from(s.as_str()),
+			Entry::Addr(a) => Authority::try_from(a),
+		}
+	}
+}
+
 const LITERAL_HOSTS: &[&str] = &["parity.io", "a.b.c", "example.com", "localhost", "127.0.0.1", "[::1]", "[2001:db8::1]", "a.x.y", "web3.site", "x.y", "io", "b.x.y"];
 const PATTERN_HOSTS: &[&str] = &["*.x.y", "*.io", "a.*.c", "*", "*.*", "*web3.site", "*.parity.io", "a.*", "*.web3.site", "*a.x.y", "*b.x.y", "a.*.*", "*.b.*", ":n.x.y", "[1.:2]", "a.b.*"];
 const PORTS: &[&str] = &["80", "443", "8080", "9944", "1", "65535", "0", "21", "9"];
@@ -598,6 +622,11 @@ fn gen_host_literal(rng: &mut Rng) -> String {
 }
 
 fn gen_entry(rng: &mut Rng) -> String {
+	if rng.chance(1, 12) {
+		// a socket address (what `TryFrom<SocketAddr>` is for): IPv4 / IPv6 incl. addresses starting with `:`
+		let ip = *rng.pick(&["127.0.0.1", "0.0.0.0", "10.1.2.3", "[::1]", "[::]", "[::2]", "[2001:db8::1]", "[::ffff:1.2.3.4]", "[fe80::1]"]);
+		return format!("{ip}:{}", *rng.pick(PORTS));
+	}
 	if rng.chance(1, 40) {
 		return (*rng.pick(&["", ":::", "a b", "parity.io:99999", "/only/path", "*", "parity.io:", "a.b:x", "exa\u{e4}mple.com"])).to_string();
 	}
@@ -1022,6 +1051,9 @@ fn main() {
 		"observations (counted, never violations): {}. obs.fwd.named_wildcard_entry = admitted only because route_recognizer reads `*name`/`:name` segments as wildcards; obs.fwd.star_spans_labels = admitted because `*` spans several labels; obs.403.some_entry_matches_best_pattern_only = some entry matches but the router consults only the best pattern's ports (completeness is claimed for a single entry only);",
 		if obs.is_empty() { "none".to_string() } else { obs.join(", ") }
 	));
+	for _ in 0..VIA_ADDR.load(Ordering::SeqCst).min(100000) {
+		out.count("hf.entry_via_sockaddr");
+	}
 	out.write(&a.out);
 	if a.replay.is_some() {
 		for i in 0..out.ops.len() {
